@@ -35,6 +35,10 @@ type C07Case struct {
 	// rotation) while Certificate[0] — what is published and what recipients are matched against — is as SPCert /
 	// Window say. Certificate[0] is the SP's certificate.
 	StaleLeaf bool `json:"staleLeaf,omitempty"`
+	// Filler: a plaintext assertion with this many attribute values stands in the (trusted-signed) Response in
+	// front of this case's encrypted element: more elements than the signature library's traversal budget. Whatever
+	// the library does with such a tree, an encrypted assertion that is not a direct child stays refused.
+	Filler int `json:"filler,omitempty"`
 }
 
 // garbageStore returns fixed certificate bytes with a real key.
@@ -86,6 +90,9 @@ func genC07(t *rapid.T) C07Case {
 	c.Recip = rapid.SampledFrom([]string{"absent", "absent", "sp", "other", "undecodable", "sp-otherwindow"}).Draw(t, "recip")
 	c.IdPWide = rapid.Bool().Draw(t, "idpWide")
 	c.StaleLeaf = c.StoreKind == "tls" && rapid.IntRange(0, 3).Draw(t, "staleLeaf") == 0
+	if c.RespSig == "trusted" && rapid.IntRange(0, 3).Draw(t, "filler") == 0 {
+		c.Filler = rapid.SampledFrom([]int{200, 990, 1010, 1300}).Draw(t, "fillerN")
+	}
 	e := h.GenEncSpec(h.CertRef{Key: "E1", Window: c.Window}).Draw(t, "enc")
 	c.Enc = *e
 	if err := c.build(); err != nil {
@@ -178,6 +185,22 @@ func (c *C07Case) build() error {
 	}
 	if p := a.Parent(); p != nil {
 		p.RemoveChild(a)
+	}
+	if c.Filler > 0 {
+		gf := gridGenuine(c.SP, 1, "none")
+		vals := make([]string, c.Filler)
+		for i := range vals {
+			vals[i] = fmt.Sprintf("group-%d", i)
+		}
+		gf.Model.Assertions[0].ID, gf.Model.Assertions[0].NameID = h.S("_filler"), h.S(c.GenuineName)
+		gf.Model.Assertions[0].Attrs = []h.AttrModel{{Name: "groups", Values: vals}}
+		rf, err := gf.Tree()
+		if err != nil {
+			return err
+		}
+		fa := h.AssertionElements(rf)[0]
+		rf.RemoveChild(fa)
+		root.AddChild(fa)
 	}
 	switch c.Place {
 	case "direct":
@@ -347,6 +370,9 @@ func judgeC07(c C07Case, newSP func() *saml2.SAMLServiceProvider) h.Outcome {
 	if c.RespSig != "trusted" && !direct {
 		reject("not-direct-child", "the encrypted assertion is "+c.Place+" rather than a direct child of an unsigned Response")
 	}
+	if c.RespSig == "trusted" && (c.Place == "nested" || c.Place == "direct+nested-after" || c.Place == "nested-before+direct" || c.Place == "in-forged") {
+		reject("not-direct-child/signed-response", "the encrypted assertion is "+c.Place+" rather than a direct child of the (signed) Response")
+	}
 	if c.RespSig == "attacker" {
 		reject("attacker-signed-response", "the Response signature is by an untrusted key")
 	}
@@ -379,6 +405,10 @@ func judgeC07(c C07Case, newSP func() *saml2.SAMLServiceProvider) h.Outcome {
 	}
 	// ---- must-accept table (so that "reject everything" fails)
 	encOK := !c.SP.ValidateEncCert || inside
+	if c.Filler > 0 {
+		o.Classes = append(o.Classes, fmt.Sprintf("filler:%d", c.Filler))
+		return o // beyond the traversal budget the library may refuse the whole message: nothing must be accepted
+	}
 	if c.Plain == "signed" && c.Place == "direct" && c.RespSig != "attacker" && (c.Recip == "absent" || c.Recip == "sp") && c.SPCert == "valid" && idpOK && encOK {
 		if !accepted {
 			o.Violation = h.V("must-accept/genuine-encrypted", "rejected a genuinely signed assertion encrypted to the SP (validate=%v, clock %s): %v", c.SP.ValidateEncCert, c.ClockPos, err)
